@@ -24,6 +24,8 @@ type Val struct {
 	name       string
 	used       bool
 	onlyStored bool // stored into a local array element and not read or used since
+	negOf      *Val // this value is -u (low word of 0 - u) for that u
+	negBorrow  *Val // ... and this is the borrow of that subtraction: [u != 0]
 	assumed    bool // exactness rests on an unproven side-condition (recorded as issue)
 	shadow     int  // shadow atom id used by the relational bound prover (0 = none)
 }
@@ -624,6 +626,10 @@ func (in *interp) opXor(x, y *Val) *Val {
 	case oky && cy.Sign() == 0:
 		return x
 	}
+	if x.isBool() && y.isBool() {
+		// on {0,1}: x ^ y = x + y - 2xy (in particular b ^ 1 = 1 - b)
+		return in.derived(pSub(pAdd(x.p, y.p), pScale(in.mul(x.p, y.p), big.NewInt(2))), big0, big1, &origin{op: "xorbool", args: []*Val{x, y}})
+	}
 	v := in.newAtom("xor", "", big0, bigWm1)
 	v.org = &origin{op: "xor", args: []*Val{x, y}}
 	return v
@@ -638,6 +644,15 @@ func (in *interp) opShr(x, k *Val) (*Val, error) {
 	n := uint(kc.Int64())
 	if c, ok := x.constant(); ok {
 		return in.constVal(new(big.Int).Rsh(c, n)), nil
+	}
+	// (u | -u) >> 63: the top bit of u or of its two's complement is set iff u != 0 (u = 0: both are 0; otherwise
+	// u >= 2^63, or u < 2^63 and then -u = 2^64 - u > 2^63), i.e. the borrow of 0 - u
+	if n == 63 && x.org != nil && x.org.op == "or" && len(x.org.args) == 2 {
+		for _, pr := range [][2]*Val{{x.org.args[0], x.org.args[1]}, {x.org.args[1], x.org.args[0]}} {
+			if pr[1].negOf == pr[0] && pr[1].negBorrow != nil {
+				return pr[1].negBorrow, nil
+			}
+		}
 	}
 	if new(big.Int).Rsh(x.hi, n).Sign() == 0 {
 		return in.constInt(0), nil
